@@ -130,6 +130,12 @@ class DequeV(V):
         a, n = self.get(st)
         return n, (lambda i: PoolObjV(a[i]))
 
+    def contains(self, E, item, st, fx):
+        self._discipline(E, st, "in")
+        if not isinstance(item, PoolObjV):
+            raise OutOfReach("membership of %s in a deque" % item.kind)
+        return [Ev(st, BoolV(self.member(st, item.t)))]
+
 
 class LockV(V):
     kind = "lock"
@@ -203,7 +209,13 @@ def mk_pool(st, with_after_remove=True, idle=True):
         x = a[0].t
         s.ghost["closed"] = z3.Store(s.ghost["closed"], x, z3.Select(s.ghost["closed"], x) + 1)
         s.ghost.setdefault("after_remove_calls", []).append((x, s.ghost.get("lock_held", 0) > 0))
-        return [Ev(s, NONE)]            # Client.close never raises (C06)
+        outs = []
+        if "async" in s.ghost.get("env_faults", ()):
+            # Client.close swallows Exception only: an asynchronous interruption inside sock.close() propagates
+            a2 = s.fork()
+            a2.trace.append("async in after_remove")
+            outs.append(Ev(a2, exc=ExcV("AsyncInterrupt", exact=True)))
+        return outs + [Ev(s, NONE)]            # Client.close never raises an Exception (C06)
     maxs = z3.Int("max_size")
     st.assume(maxs >= 1)
     idle_t = z3.Real("idle_timeout")
@@ -876,3 +888,25 @@ def verify_create_client(E):
         E.oblige("C16/%s/inner-client-raises(ignore_exc=False:the-wrapper-decides)" % short(q), o.st,
                  z3.BoolVal(isinstance(v, BoolV) and z3.is_false(z3.simplify(v.t))), func=q, kind="forward")
     del E.contracts[CL]
+
+
+def verify_pool_async(E, prop="C10"):
+    """destroy / release / get under asynchronous interruption of after_remove (Client.close -> sock.close()): whatever
+    happens, an object that was handed to destroy or release is no longer in `used` (the slot is not lost)."""
+    for meth in ("destroy", "release"):
+        q = "%s.%s" % (P, meth)
+        E.case_suffix = "/async"
+        st = State()
+        st.ghost["env_faults"] = ("exception", "async")
+        pool = mk_pool(st, with_after_remove=True)
+        st.ghost["cur_func"] = q
+        s0 = snapshot(st, pool)
+        obj = z3.Int("obj")
+        j = z3.Int("aj")
+        for o in E.run_function(q, st, [PoolObjV(obj)], {}, selfv=pool):
+            s = o.st
+            ua, un = s.heap[pool.ref]["_used_objs"].get(s)
+            E.oblige("%s/%s/post@%s(object-no-longer-checked-out:slot-not-lost)%s" % (prop, short(q), o.kind, E.case_suffix), s,
+                     z3.ForAll([j], z3.Implies(z3.And(0 <= j, j < un), ua[j] != obj)), func=q, meta={"exit": o.kind})
+            lock_released(E, prop, q, s, o.kind)
+    E.case_suffix = ""
